@@ -335,4 +335,25 @@ def loopS {α} : Nat → Nat → String → List (Item α) → Stack α → Stac
         (rr.1, .row r :: rs ++ rr.2.1, rr.2.2)
     | (st1, r) => (st1.tail, [r], true)
 
+def endsWithErr {α} : List (Res α) → Bool
+  | [] => false
+  | [.err _] => true
+  | [_] => false
+  | _ :: rest => endsWithErr rest
+
+/-- `IF TRUE THEN pre…; WHILE … IN name DO body END WHILE; post… END IF` (or the same in a function):
+    the loop runs over whatever the name denotes inside that block — e.g. a cursor declared in `pre`
+    that shadows an outer one; when the body disposes it, the loop goes on over the outer cursor. -/
+def nestS {α} (fuel : Nat) (pre : List (Op α)) (name : String) (body : List (Item α)) (post : List (Op α))
+    (st : Stack α) : Stack α × List (Res α) × Bool :=
+  match runOps ([] :: st) pre with
+  | (st1, rs1, true) => (st1.tail, rs1, true)
+  | (st1, rs1, false) =>
+    match loopS fuel 1 name body st1 with
+    | (st2, rs2, ended) =>
+      if !ended || endsWithErr rs2 then (st2.tail, rs1 ++ rs2, ended)
+      else
+        let r3 := runOps st2 post
+        (r3.1.tail, rs1 ++ rs2 ++ r3.2.1, true)
+
 end Csvq.Cursor
